@@ -92,10 +92,20 @@ def snapshot(root):
 
 
 class Ids:
-    """small natural numbers for content hashes (model file system) and metadata tuples"""
+    """small natural numbers for content hashes (model file system) and metadata tuples; the
+    package's assets keep their numbers, everything else is numbered afresh for every sandbox
+    (Coq's nat literals are unary: the numbers must stay small)"""
 
     def __init__(self):
+        self.fixed = {}
         self.content = {}
+        self.meta = {}
+
+    def freeze(self):
+        self.fixed = dict(self.content)
+
+    def new_sandbox(self):
+        self.content = dict(self.fixed)
         self.meta = {}
 
     def cid(self, h, create):
@@ -151,7 +161,7 @@ def node_entries(snap, ids, create):
 
 
 def meta_entries(snap, ids):
-    return {key: f"({coq_bool(e[0] == 'd')}, {ids.mid(e[:4])})" for key, e in snap.items()}
+    return {key: f"({coq_bool(e[0] == 'd')}, {ids.mid(e[:4])}%N)" for key, e in snap.items()}
 
 
 def coq_entries(d):
@@ -418,7 +428,7 @@ class Cases:
     """collects judge cases; listings shared between the cases of one sandbox go to [defs]"""
 
     def __init__(self):
-        self.terms, self.info, self.defs = [], [], []
+        self.terms, self.info, self.defs, self.case_defs = [], [], [], []
 
     def add(self, mode, sbx, ids, pre, post, settings_p, refused, ops, docs, base=None, info=None):
         canon = sbx.canon
@@ -433,12 +443,23 @@ class Cases:
             post_m_t = coq_entries(post_m)
         post_n_t = coq_entries(post_n) if mode == 0 else "[]"
         out, gd, srcs, excl = settings_p
+        i = len(self.terms)
+        # one Definition per listing: elaboration of one huge term is superlinear in its size
+        mine = [f"Definition k{i}_pre_n : list (path * node) := {pre_n_t}.",
+                f"Definition k{i}_pre_m : list (path * meta) := {pre_m_t}.",
+                f"Definition k{i}_ops : list op := {ops_term(ops)}.",
+                f"Definition k{i}_post_n : list (path * node) := {post_n_t}.",
+                f"Definition k{i}_post_m : list (path * meta) := {post_m_t}.",
+                f"Definition k{i}_pages : list page := {pages}."]
         term = ("(Build_case %d %s %s %s\n  (%s)\n  (%s)\n  %s\n  %s pkgfs %s\n  %s %s %s %s %s\n  %s\n  %s\n  %s)" % (
             mode, coq_list(f"({coq_path(a)}, {coq_path(b)})" for a, b in sbx.links()),
-            coq_path(canon.comps(str(sbx.proj))), coq_path((PKG,)), rcfg_term(canon, sbx.sc), pt, pages,
-            pre_n_t, pre_m_t, coq_bool(refused), coq_path(out), coq_opt(gd, coq_path),
+            coq_path(canon.comps(str(sbx.proj))), coq_path((PKG,)), rcfg_term(canon, sbx.sc), pt, f"k{i}_pages",
+            f"k{i}_pre_n", f"k{i}_pre_m", coq_bool(refused), coq_path(out), coq_opt(gd, coq_path),
             coq_list(coq_path(x) for x in srcs), coq_list(coq_path(x) for x in excl),
-            ops_term(ops), post_n_t, post_m_t))
+            f"k{i}_ops", f"k{i}_post_n", f"k{i}_post_m"))
+        mine.append(f"Definition k{i} : case := {term}.")
+        self.case_defs.append("\n".join(mine))
+        term = f"k{i}"
         self.terms.append(term)
         self.info.append(info or {})
         return len(self.terms) - 1
@@ -536,10 +557,42 @@ def exclusion_check(chk, rng, sbs_hint=None):
         sbx.close()
 
 
-def judge_all(chk, cases, ids, pkgfs):
+def common_defs(cases, pkgfs):
     listing = f"Definition pkgfs : list (path * node) := {coq_entries(pkgfs)}.\n" + "\n".join(cases.defs)
-    defs = WORDS.defs() + "\n" + listing       # after every term has been rendered
-    return chk.coq_judge(IMPORTS, "case", "judge", cases.terms, shard=8, defs=defs), defs
+    return WORDS.defs() + "\n" + listing       # after every term has been rendered
+
+
+def judge_all(chk, cases, ids, pkgfs, shard=6):
+    """Check.coq_judge with per-shard definitions (each case brings its own listings)"""
+    import re
+    common = common_defs(cases, pkgfs)
+    n = len(cases.terms)
+    files = []
+    for k, lo in enumerate(range(0, n, shard)):
+        idx = list(range(lo, min(n, lo + shard)))
+        f = chk.tmp / f"c19_cases_{k}.v"
+        f.write_text(f"{IMPORTS}\nSet Printing Width 1000000.\nSet Printing Depth 1000000.\n{common}\n"
+                     + "\n".join(cases.case_defs[i] for i in idx)
+                     + f"\nDefinition cases : list case := {coq_list(cases.terms[i] for i in idx)}.\n"
+                     "Eval vm_compute in (report (map judge cases)).\n")
+        files.append((lo, f))
+
+    def one(item):
+        return core.run(["timeout", "900", "coqc", "-Q", "theories", "Ford", str(item[1])], cwd=core.COQ, timeout=1000)
+    with ThreadPoolExecutor(max_workers=core.NCPU) as ex:
+        outs = list(ex.map(one, files))
+    res = {}
+    for (lo, f), (rc, out) in zip(files, outs):
+        if rc != 0 or "list (nat * nat)" not in out:
+            chk.obligation("model-evaluation", False, out[-2000:])
+            return None, common
+        for m in re.finditer(r"\((\d+), (\d+)\)", out.split(": list (nat * nat)")[0]):
+            res[lo + int(m.group(1))] = int(m.group(2))
+    return res, common
+
+
+def explain(chk, cases, idx, common):
+    return chk.coq_eval(IMPORTS, f"explain k{idx}", defs=common + "\n" + cases.case_defs[idx])
 
 
 FINDING_REGION = {1: "page-copy-subdir-escape", 2: "page-ordered-subpage-escape"}
@@ -561,7 +614,7 @@ def verdicts(chk, cases, res, defs):
             continue
         if explained < 2:
             explained += 1
-            info["model"] = chk.coq_eval(IMPORTS, f"explain {cases.terms[idx]}", defs=defs)[-6000:]
+            info["model"] = explain(chk, cases, idx, defs)[-6000:]
         info.update({"code": code, "meaning": "bit0 model!=impl, bit1 impl violates confinement/refusal, "
                                               "bits>=2 known region"})
         chk.violation("failing-input" if code & 2 else "broken-correspondence", info, bool(code & 2))
@@ -584,6 +637,7 @@ def run(chk):
     cases = Cases()
     WORDS.names.clear()
     pkgfs = pkg_listing(ids)          # first: the copies of the package's assets get these content ids
+    ids.freeze()
 
     def scenarios():
         return [S.gen_scenario(rng, "@SB@", pl, simple=pl[6]) for pl in S.placements("@SB@")]
@@ -657,6 +711,7 @@ def run(chk):
 def traced_scenario_in(chk, cases, ids, rng, sbx, faults=0, label=None):
     sc = sbx.sc
     try:
+        ids.new_sandbox()
         sbx.build()
         pre = snapshot(sbx.sb)
         settings, docs, t, err, log = run_ford(sbx)
@@ -723,6 +778,7 @@ def subprocess_boxes(chk, cases, ids, boxes):
             sp = (real(out_text), real(o["graph_dir"]) if o.get("graph_dir") else None,
                   [real(x) for x in o["src_dir"]],
                   [real(x) for x in o.get("exclude_dir", [])] + [real(o["output_dir"])])
+            ids.new_sandbox()
             cases.add(3, sbx, ids, pre, post, sp, refused, [], None,
                       info={"scenario": sbx.sc["name"], "subprocess": True, "rc": rc, "opts": o,
                             "cli": sbx.sc.get("cli"), "links": sbx.sc["links"], "log": log[-600:]})
